@@ -12,9 +12,9 @@ ENTRIES = [(H.HYP, q) for q in (
 
 
 def run(ctx):
-    H.rule_x1x2(ctx)
-    S.rule_ax1(ctx, [S.CORE, H.HYP])
-    u1(ctx, ENTRIES, min_functions=15)
+    ctx.do(H.rule_x1x2)
+    ctx.do(S.rule_ax1, [S.CORE, H.HYP])
+    ctx.do(u1, ENTRIES, min_functions=15)
     ctx.r.assume("that centre/radius/angles describe the true geodesic, "
                  "orthogonality to the boundary and horosphere tangency are "
                  "numerical and not decided")
